@@ -680,6 +680,8 @@ class Program:
             name = f"pred_{n['id']}_{i}"
             if pred["t"] == "eq":
                 cond = _pred_eq(name, pred["v"])
+            elif pred["t"] == "plain":
+                cond = copy.deepcopy(pred["v"])
             else:  # "param": condition is an evaluatable with an option-valued parameter
                 fn = make_step_fn(name, ["y"], [self.ref(pred["n"])], _pred_param_impl(name))
                 cond = pipeline_step(fn)
